@@ -22,7 +22,9 @@ Definition cf_tv_bool (t : cf_tv Z) : cf_tv bool :=
    16 sso.server-default-redirect-url 17 sso.server-url 18 upstream-ip ; then (index 38..44)
    IDPORTEN_CLIENT_ID IDPORTEN_CLIENT_JWK IDPORTEN_WELL_KNOWN_URL AZURE_APP_CLIENT_ID AZURE_APP_JWK
    AZURE_APP_WELL_KNOWN_URL AZURE_APP_CLIENT_JWK.
-   typed channels, two per setting: 0 cookie.secure 1 sso.enabled 2 upstream-port 3 graceful 4 wait-before *)
+   then (index 45..48) redis.password (flag, WONDERWALL_ variable) and redis.username (flag, WONDERWALL_ variable).
+   typed channels, two per setting: 0 cookie.secure 1 sso.enabled 2 upstream-port 3 graceful 4 wait-before
+   5 redis.tls 6 redis.connection-idle-timeout *)
 Definition cf_src_at (ss : list (option bytes)) (i : nat) : cf_ssrc :=
   mk_cf_ssrc (cf_nth_s ss (2 * i)) (cf_nth_s ss (2 * i + 1)).
 Definition cf_tsrc_at (ts : list (cf_tv Z)) (i : nat) : cf_tsrc Z :=
@@ -40,10 +42,14 @@ Definition mk_cf_raw_of (ss : list (option bytes)) (ts : list (cf_tv Z)) (oj ore
     (cf_tsrc_bool_at ts 0) (cf_tsrc_bool_at ts 1) (cf_tsrc_at ts 2) (cf_tsrc_at ts 3) (cf_tsrc_at ts 4)
     oj ored ofetch.
 
+Definition mk_cf_redis_rest_of (ss : list (option bytes)) (ts : list (cf_tv Z)) : cf_redis_rest :=
+  mk_cf_redis_rest (mk_cf_ssrc (cf_nth_s ss 45) (cf_nth_s ss 46)) (mk_cf_ssrc (cf_nth_s ss 47) (cf_nth_s ss 48))
+    (cf_tsrc_bool_at ts 5) (cf_tsrc_at ts 6).
+
 (* the whole start-up: outcome class of the binary *)
 Definition entry_cfrun (v : cf_variant) (ss : list (option bytes)) (ts : list (cf_tv Z)) (oj ored ofetch : list bytes)
     (djson dend djwks : bool) (algs acrs locs : list bytes) : Z :=
-  cf_run v (mk_cf_raw_of ss ts oj ored ofetch) (mk_cf_disc djson algs acrs locs dend djwks).
+  cf_run_x v (mk_cf_raw_of ss ts oj ored ofetch) (mk_cf_redis_rest_of ss ts) (mk_cf_disc djson algs acrs locs dend djwks).
 
 (* Config.Validate, ingress.ParseIngresses and the route patterns on an already resolved Config struct:
    [samesite; ingress (comma joined); alg; redis.address; redis.uri; sso.mode; cookie name; domain; default redirect;
